@@ -277,6 +277,13 @@ def worker_main(a):
     os.environ.setdefault("MPLBACKEND", "Agg")
     add_deps_path()
     t0 = time.time()
+    # last resort against orphans: the parent's watchdog (timecap * 3 + 300 s) normally ends a stuck worker, but a worker
+    # whose parent was killed would otherwise spin for ever
+    try:
+        import faulthandler as _fh
+        _fh.dump_traceback_later(float(a.timecap) * 3 + 900, exit=True)
+    except Exception:  # noqa
+        pass
     res = {"ok": False}
     inflight = a.out + ".inflight"
     ckpt = a.out + ".ckpt"
